@@ -35,7 +35,7 @@ LEVELS = {
     'C10': 'fault_enumeration', 'C16': 'fault_enumeration', 'C17': 'fault_enumeration', 'C19': 'fault_enumeration',
 }
 BUDGET = {'quick': float(os.environ.get('VERIF_QUICK_S', 40)), 'thorough': float(os.environ.get('VERIF_THOROUGH_S', 600))}
-CHUNK = 40
+CHUNK = 48  # multiple of 16: a chunk of a sched:* profile covers whole programs
 RUN_WALL_CAP = 20  # seconds per single simulated run
 
 
@@ -91,7 +91,7 @@ def work_chunk(args):
         'runs': 0, 'steps': 0, 'vt': 0.0, 'abstract': set(), 'abstract_nt': set(), 'nontrivial': 0,
         'faults_runs': collections.Counter(), 'faults_total': collections.Counter(), 'probes': collections.Counter(),
         'known': collections.Counter(), 'unknown': [], 'harness': [], 'digests': {}, 'ends': collections.Counter(),
-        'samples': [], 'profile': profile, 'tainted': 0,
+        'samples': [], 'profile': profile, 'tainted': 0, 'per_program': {},
     }
     known_idx = {tuple(k): {'id': i} for k, i in known_keys}
     for seed in seeds:
@@ -108,6 +108,8 @@ def work_chunk(args):
             agg['tainted'] += 1
         a = int(r['abstract'], 16)
         agg['abstract'].add(a)
+        if profile.startswith('sched:'):
+            agg['per_program'].setdefault(seed // 16, set()).add(a)
         if r.get('nontrivial'):
             agg['nontrivial'] += 1
             agg['abstract_nt'].add(a)
@@ -135,6 +137,7 @@ def work_chunk(args):
                     agg['unknown'].append({'profile': profile, 'seed': seed, 'scenario': sc, 'viol': _jsonable(v)})
     agg['abstract'] = list(agg['abstract'])
     agg['abstract_nt'] = list(agg['abstract_nt'])
+    agg['per_program'] = [len(v) for v in agg['per_program'].values()]
     return agg
 
 
@@ -233,7 +236,7 @@ def main():
             violations.append((sc, v, 'pinned ' + e['id']))
 
     # 2. exploration
-    profs = props.profiles_for(prop)
+    profs = props.profiles_for(prop, tier) if prop in props.BUS_PROPS else props.profiles_for(prop)
     total_w = sum(w for _, w in profs)
     rng = random.Random(base_seed * 1000003 + 17)
     next_seed = {p: base_seed * 10_000_000 for p, _ in profs}
@@ -291,6 +294,7 @@ def main():
                 for k in ('faults_runs', 'faults_total', 'probes', 'ends'):
                     agg[k].update(a[k])
                 agg['by_profile'][a['profile']] += a['runs']
+                agg.setdefault('per_program', []).extend(a.get('per_program', []))
                 known_seen.update(a['known'])
                 harness_errors.extend(a['harness'])
                 for sd, d in a['digests'].items():
@@ -366,6 +370,9 @@ def main():
             'distinct_abstract_traces': len(agg['abstract']),
             'nontrivial_runs': agg['nontrivial'],
             'runs_by_profile': dict(agg['by_profile']),
+            'schedule_search': ({'programs': len(agg.get('per_program', [])), 'schedules_per_program': 16,
+                                 'mean_distinct_interleavings_per_program': round(sum(agg['per_program']) / len(agg['per_program']), 2),
+                                 'max_distinct_interleavings_per_program': max(agg['per_program'])} if agg.get('per_program') else None),
             'run_endings': dict(agg['ends']),
             'fault_kinds_fired': {k: {'runs': agg['faults_runs'][k], 'total': agg['faults_total'][k]} for k in sorted(agg['faults_runs'])},
             'probes': dict(agg['probes']),
